@@ -150,7 +150,7 @@ func genOps(rng *rand.Rand, steps int, maxLen int, size0 int64, readonly bool, z
 }
 
 func run(c *eng.Ctx) error {
-	nseq := c.N(100, 1000)
+	nseq := c.N(100, 600)
 	root, err := os.MkdirTemp("", "kvh-c12-")
 	if err != nil {
 		return err
